@@ -215,6 +215,23 @@ package util
 //@     invariant same: fsex(keypath(f, key)) && fsdata(keypath(f, key)) == old(fsdata(keypath(f, key))) && old(fsex(keypath(f, key)))
 //@     invariant buf: len(buffer) == 32
 
+// KeysWithSuffix: complete - every entry of the directory listing that is not a directory and whose name ends in suffix
+// is among the returned keys (kwit(i): the position it was put at; working storage of this proof) - and it returns
+// nothing but names of such entries, at most one per entry.
+//@ ghost kwit(ref, int) int
+//@ scratch kwit
+//@ func (f *fileStorage) KeysWithSuffix(suffix) (keys, err)
+//@   refines "github.com/brutella/hc/util.Storage.KeysWithSuffix"
+//@   requires f != nil
+//@   modifies kwit(f)
+//@   ensures complete: err == nil ==> forall(i, 0, lscount(f.dirPath), !lsdir(f.dirPath, i) && strsuffix(lsname(f.dirPath, i), suffix) ==> 0 <= kwit(f, i) && kwit(f, i) < len(keys) && keys[kwit(f, i)] == lsname(f.dirPath, i))
+//@   ensures bound: err == nil ==> len(keys) <= lscount(f.dirPath)
+//@   ghostset w after HasSuffix#1: kwit(f, loopidx(0)) = len(keys)
+//@   loop 0
+//@     invariant idx: 0 <= loopidx && loopidx <= len(infos) && len(infos) == lscount(f.dirPath) && len(keys) <= loopidx && (cap(keys) == 0 || !existed(keys))
+//@     invariant listing: forall(i, 0, len(infos), infos[i] != nil && finame(ref(infos[i])) == lsname(f.dirPath, i) && fidir(ref(infos[i])) == lsdir(f.dirPath, i))
+//@     invariant complete: forall(i, 0, loopidx, !lsdir(f.dirPath, i) && strsuffix(lsname(f.dirPath, i), suffix) ==> 0 <= kwit(f, i) && kwit(f, i) < len(keys) && keys[kwit(f, i)] == lsname(f.dirPath, i))
+
 // ---- Storage seen through its interface: stex(s, k) / stval(s, k) = the key-value map of store s.
 // For fileStorage the map is read through the ghost file system (abstraction): that is what "survives restarts" means -
 // a store holds no state besides dirPath, so re-opening the directory gives the same map.
